@@ -22,7 +22,7 @@ def generate(ctx):
     th = ctx.tier == "thorough"
     for i in range(900 if th else 36):
         kind = ["serial", "biclique", "recurrent"][i % 3]
-        d = {"kind": kind, "dt": rng.choice([1.0, 0.5]), "B": rng.randint(1, 3), "seed": rng.randrange(1 << 30),
+        d = {"kind": kind, "dt": rng.choice([1.0, 0.5, 1.3, 0.25]), "B": rng.randint(1, 3), "seed": rng.randrange(1 << 30),
              "T": rng.randint(6, 10), "neuron": rng.choice(fac.NEURONS), "neuron2": rng.choice(fac.NEURONS),
              "syn": rng.choice(fac.SYNAPSES), "delay": rng.choice([None, None, 2]), "bias": rng.random() < 0.4,
              "capture": rng.random() < 0.5, "p": rng.choice([0.3, 0.6, 0.9]), "replay": 5,
